@@ -3,6 +3,7 @@ import json
 import re
 
 from . import common
+from .common import log
 
 
 def cfg(mode, alphabet="{1, 2}", maxlen=1, prefixes="{8}", scores="{0}", maxn=1, minsims="{0}", distances="{<<0, 1>>}", maxyears="{3}", invs=""):
@@ -27,6 +28,33 @@ def date_cases(quick):
     """Date pairs with exactly known distances on the Years scale, and the parabola TLC-side is checked by
     MC_Sim_dates; the expected rational of each pair is computed by TLC from the distance the module derives."""
     return None
+
+
+def names_stage(ctx, quick):
+    """NamesOps.tla / Names.tla: the pieces of a personal name (what the surname and given-name similarity layers and the
+    published name lists are computed from).  Conformance only: every clause is a drift clause."""
+    for m in ("NamesOps", "Names", "NamesTrace"):
+        ctx.sany(m)
+    tla = ("---- MODULE MC_Names ----\nEXTENDS Names\n"
+           "cSub == {<<>>, <<97>>, <<32, 66, 32, 32, 97>>, <<97, 47>>, <<194, 160, 97, 32>>}\n====\n")
+    cfg = ("SPECIFICATION NSpec\nCONSTANTS\n  Alphabet = {97, 66, 32, 47%s}\n  MaxLen = %d\n  SubValues <- cSub\n"
+           "INVARIANTS PartsPartition PartsShape ComposeInverse RenderingsClean SubTagWins WrittenIsValueWithoutSlashes Emit\n"
+           % ("" if quick else ", 9", 4 if quick else 5))
+    res, mism = common.emit_and_replay(ctx, "MC_Names", {"MC_Names.tla": tla, "MC_Names.cfg": cfg}, ["names", "replay"], timeout=3000, sample_every=40009)
+    drift = {}
+    for mm in mism:
+        drift[mm["why"]] = drift.get(mm["why"], 0) + 1
+    obs = ctx.path("names_obs.ndjson")
+    ctx.vh(["names", "record", str(6000 if quick else 120000)], stdout_path=obs)
+    bad, total = common.validate_obs(ctx, "NamesTrace", "NamesTrace", "names_obs.ndjson", obs, timeout=3000, chunk=40000)
+    for o in bad:
+        k = "recorded: " + o["spec_extras"][1]
+        drift[k] = drift.get(k, 0) + 1
+    ctx.extra["names_cases_replayed"] = res["cases"]
+    ctx.extra["names_observations"] = total
+    ctx.extra["names_drift_by_clause"] = drift
+    if drift:
+        log("note: NameNode drifts from NamesOps: %s" % drift)
 
 
 def run(ctx):
@@ -111,6 +139,7 @@ Emit == (Ready /\\ SameKind) => PrintT(<<"CASE", ToJson([kind |-> "date", a |-> 
         "(|s(a,b) - s(b,a)| <= 1e-12, 1e-9 for the weighted sum)",
         "names longer than 12 cleaned bytes are judged on bounds, symmetry and identity only (32-bit integers in TLC)",
     ]
+    names_stage(ctx, quick)
     rule = ("A: every pair of strings over {a,b} / {a,b,c} up to a bounded length (Jaro-Winkler rational vs float, decorated with case, "
             "punctuation and spacing) and date pairs at exact distances; the list assignment on every score matrix up to 3x3 (model); "
             "B: %d seeded observations of the name, date, individual, list, family and weighted layers judged by SimilarityTrace" % total)
